@@ -77,20 +77,24 @@ def parseEnd (impl : String) : EndObs :=
 
 def showHdr (h : Bytes) : String := if h = [] then "lei=-" else "lei=x" ++ bytesToHex h
 
-def failName : Fail → String
-  | .decode => "decode"
-  | .malformed => "malformed"
-  | .exceeded => "exceeded"
-  | .connect => "reconnect"
-  | .rejected c => s!"st{c}"
-  | .sessionGone => "session-missing"
-  | .status c => s!"st{c}"
+/-- the `end` observation as the harness prints it -/
+def showEnd : EndObs → String
+  | .hang => "hang"
+  | .decode => "err:decode"
+  | .malformed => "err:malformed"
+  | .result true => "result:R"
+  | .result false => "result:?"
+  | .ok => "ok"
+  | .synthetic => "err:synthetic"
+  | .exceeded => "err:exceeded"
+  | .reconnect => "err:reconnect"
+  | .sessionMissing => "err:session-missing"
+  | .st (some c) => s!"err:st{c}"
+  | .st none => "err:st?"
+  | .other => "err:other"
 
 def endName (sa : Bool) : Phase → String
-  | .ended .replied => "result:R"
-  | .ended .synthetic => "err:synthetic"
-  | .ended (.failed f) => "err:" ++ failName f
-  | .ended .streaming => if sa then "ok" else "hang"
+  | .ended e => showEnd (endObsOf sa e)
   | .reconnecting .. => "pending"
 
 /-- the clause texts -/
